@@ -10,6 +10,8 @@ mkdir -p build work evidence replays
 # the property theorems (about 6 minutes from clean on 16 cores; every check re-runs `lake build` for its
 # own module, which is then a no-op unless a source changed)
 (cd lean && lake build $(for i in 01 02 03 04 05 06 07 08 09 10 11 12 13 14 15 16 17 18 19 20; do echo NodisVerif.Props.C$i; done) 2>&1 | tail -2)
+# the cached normal-form lemmas the per-run translated obligations import (translated/*.lean headers)
+(cd lean && lake build $(grep -h "^-- import:" ../translated/*.lean 2>/dev/null | sed 's/^-- import: *//' | tr ' ' '\n' | sort -u | tr '\n' ' ') NodisVerif.Model.GoLib 2>&1 | tail -1)
 cp /repo/go.sum harness/go.sum
 (cd harness && go build -tags verif -o "$ROOT/build/harness" . )
 (cd harness && CGO_ENABLED=0 go build -tags verif,faketime -o "$ROOT/build/harness_ft" . ) || true
